@@ -220,6 +220,37 @@ def matrix_metrics(chk, prog):
     log_arms(chk, prog, flog, q_, _E(q_))
 
 
+def coincide_guard(chk, prog):
+    """COINCIDE-GUARD (intervals): angular_distance must be exactly 0 for coincident rotations, where the trace of R1 R2^T is 3 up to rounding -- possibly a few
+    ulp above it.  Every arccos reached through the DCM method angular_distance uses must have an argument provably <= 1 on the paths that reach it (a
+    dominating `trace >= 3` exit, a clip ...); otherwise identical inputs can give NaN instead of 0."""
+    from sa.interval import Intervals
+    f = prog.func(MET + "::angular_distance")
+    chk.touch(f)
+    cls = prog.cls(DCM + "::DCM")
+    used = sorted({x.attr for x in ast.walk(f.node) if isinstance(x, ast.Attribute) and x.attr in cls.methods})
+    n = 0
+    for name in used:
+        g = cls.methods[name]
+        iv = Intervals(g).analyse()
+        for st_ in iv.sites:
+            if st_["kind"] != "arccos":
+                continue
+            n += 1
+            site = "%s via DCM.%s::arccos(%s)" % (f.ref, name, st_["arg"][:40])
+            if st_["interval"][1] <= 1.0:
+                chk.record("COINCIDE-GUARD", site, "argument of arccos is provably <= 1 where it is evaluated (upper bound %g)" % st_["interval"][1])
+            else:
+                why = "angular_distance goes through DCM.%s, whose np.arccos(%s) has no upper bound on its argument: for coincident rotations the trace can round " \
+                      "above 3, the argument above 1, and the distance is NaN instead of 0" % (name, st_["arg"][:50])
+                chk.record("COINCIDE-GUARD", site, "arccos argument bounded by 1 near coincidence", verdict="VIOLATION", detail=why)
+                chk.finding("COINCIDE-GUARD", DCM, "DCM." + name, "arccos(%s) reached from angular_distance" % st_["arg"][:50], why, line=st_["node"].lineno)
+    if not used:
+        chk.error("COINCIDE-GUARD: angular_distance no longer goes through a DCM method (anchor changed)")
+    elif n == 0:
+        chk.record("COINCIDE-GUARD", f.ref, "no arccos on the route angular_distance takes (DCM.%s)" % ", DCM.".join(used))
+
+
 def euclid(chk, prog):
     f = prog.func(MET + "::euclidean")
     chk.touch(f)
@@ -288,6 +319,7 @@ def run(chk, prog, tier):
     quaternion_metrics(chk, prog)
     matrix_metrics(chk, prog)
     euclid(chk, prog)
+    coincide_guard(chk, prog)
     chk.require_count("SYMMETRY", 8)
     chk.require_count("INVARIANCE", 7)
     chk.require_count("CLOSED", 7)
